@@ -338,13 +338,13 @@ def gen_sso(rng):
             return a, e
 
 
-def check_sso(out, rng):
+def check_sso(out, rng, preset=None):
     import numpy as np
     from beyond.utils.leo import sso
     from beyond.orbits import Orbit
     from beyond.dates import Date, timedelta
     from beyond.propagators.j2 import J2
-    a, e = gen_sso(rng)
+    a, e = preset or gen_sso(rng)
     inp = {"a": a, "e": e}
     i = float(sso(a=a, e=e))
     out.count(key=("sso", a, e), kind="sso")
@@ -406,10 +406,13 @@ def gen_walker(rng):
     return p * s, p, f
 
 
-def check_walker(out, rng):
+def check_walker(out, rng, preset=None):
     from beyond.utils.constellation import WalkerStar, WalkerDelta
-    t, p, f = gen_walker(rng)
-    raan0 = rng.choice([0.0, rng.uniform(0, TWO_PI)])
+    if preset:
+        t, p, f, raan0 = preset
+    else:
+        t, p, f = gen_walker(rng)
+        raan0 = rng.choice([0.0, rng.uniform(0, TWO_PI)])
     for cls, span in ((WalkerDelta, TWO_PI), (WalkerStar, math.pi)):
         w = cls(t, p, f, raan0)
         fleet = [(float(r), float(n)) for r, n in w.iter_fleet()]
@@ -531,7 +534,7 @@ def _cmp(out, family, what, inp, real, model, rtol=1e-9, atol=0.0, scales=None, 
         if exact:
             ok = f2b(a) == f2b(b)
         else:
-            sc = scales[k] if scales else max(abs(a), abs(b))
+            sc = max(scales[k] if scales and scales[k] else 0.0, abs(a), abs(b)) if math.isfinite(a) and math.isfinite(b) else 1.0
             ok = core.close(a, b, rtol=rtol, atol=atol, scale=sc)
         if not ok:
             out.fail(family, f"{what} (component {k})", inp, observed=[float(x) for x in real], expected=list(model))
@@ -703,5 +706,22 @@ def oracle(ctx, widened):
 
 
 def replay(f):
-    ctx = core.Ctx(ID, "quick", 0)
-    return oracle(ctx, False)
+    """re-run the recorded input where the family carries its generator parameters (lambert, walker, sso);
+    otherwise a short oracle sweep restricted to failures of the same family"""
+    import random
+    out = Outcome()
+    fam, inp = f["family"], f.get("input") or {}
+    if fam.startswith("lambert") and isinstance(inp, dict) and "dnu" in inp:
+        c = {k: inp[k] for k in ("a", "e", "i", "raan", "argp", "nu0", "dnu", "dE", "tof")}
+        for api in (False, True):
+            check_lambert(out, c, use_orbit_api=api)
+    elif fam.startswith("walker") and isinstance(inp, dict):
+        check_walker(out, random.Random(0), preset=(inp["t"], inp["p"], inp["f"], inp["raan0"]))
+    elif fam.startswith("sso") and isinstance(inp, dict):
+        check_sso(out, random.Random(0), preset=(inp["a"], inp["e"]))
+    else:
+        full = oracle(core.Ctx(ID, "quick", 0), False)
+        out.failures = [x for x in full.failures if x["family"] == fam]
+        return out
+    out.failures = [x for x in out.failures if x["family"] == fam]
+    return out
